@@ -239,3 +239,403 @@ def replay_molfile_vs_mol(prop, rec):
         if s != rec["expect_tucan"]:
             msg = f"TUCAN {s!r} != {rec['expect_tucan']!r}"
     return bool(msg), msg or "reader output equals the stated molecule"
+
+
+# ----------------------------------------------------------------------------------------------
+# C08 — V2000 vs V3000 vs abstract molecule
+# ----------------------------------------------------------------------------------------------
+def c08_molecules(tier):
+    out = []
+    # all attribute combinations on a 1..3-atom skeleton
+    chgs = (-3, -2, -1, 0, 1, 2, 3) if tier == "thorough" else (-3, -1, 0, 1, 3)
+    for chg in chgs:
+        for rad in (0, 1, 2, 3):
+            for mass in (0, 13):
+                out.append(("attr1", Mol([Atom("C", chg, rad, mass, (0.0, 0.0, 0.0))])))
+                out.append(("attr3", Mol([Atom("O", 0, 0, 0, (0.0, 0.0, 0.0)), Atom("C", chg, rad, mass, (1.5, 0.0, 0.0)),
+                                          Atom("N", 1, 0, 15, (0.0, -1.5, 0.0))], [(0, 1, 2), (1, 2, 1)])))
+    # codes-expressible molecules (charges in +-3 without radical on the same atom, doublet radicals)
+    out.append(("codes", Mol([Atom("N", 1), Atom("O", -1), Atom("C", 0, 2), Atom("C")], [(0, 1, 1), (0, 2, 1), (2, 3, 2)])))
+    out.append(("codes", Mol([Atom("Fe", 3), Atom("Cl", -1), Atom("Cl", -1), Atom("Cl", -1)], [])))
+    out.append(("codes", Mol([Atom("C", 0, 2, 13), Atom("H", 0, 0, 2), Atom("H", 0, 0, 3), Atom("H")], [(0, 1, 1), (0, 2, 1), (0, 3, 1)])))
+    # hydrogen isotopes: D-O-H, D-O-T, with other isotopes around (D5)
+    out.append(("iso", Mol([Atom("H", 0, 0, 2), Atom("O", 0, 0, 18), Atom("H")], [(0, 1, 1), (1, 2, 1)])))
+    out.append(("iso", Mol([Atom("H", 0, 0, 2), Atom("O"), Atom("H", 0, 0, 3)], [(0, 1, 1), (1, 2, 1)])))
+    out.append(("iso", Mol([Atom("H", 0, 0, 2), Atom("C", 0, 0, 13), Atom("H", 0, 0, 2), Atom("H", 0, 0, 1)], [(0, 1, 1), (1, 2, 1), (1, 3, 1)])))
+    # many entries: 9 and 17 charged/labelled atoms (grouping into lines of <= 8)
+    for k in (9, 17) if tier == "thorough" else (9,):
+        atoms = [Atom("N", 1 if i % 2 else -1, 2 if i % 3 == 0 else 0, 15 if i % 2 == 0 else 14, (float(i), 0.0, 0.0)) for i in range(k)]
+        out.append((f"many{k}", Mol(atoms, [(i, i + 1, 1) for i in range(k - 1)])))
+    # width boundaries of the 3-column fields
+    for n in (1, 2, 3, 9, 10, 99, 100, 999):
+        atoms = [Atom("C", 0, 0, 0, (float(i % 7), float(i % 3), 0.0)) for i in range(n)]
+        atoms[0] = Atom("N", 1, 0, 15, (0.0, 0.0, 0.0))
+        atoms[-1] = Atom("O" if n > 1 else "N", -1 if n > 1 else 1, 2, 17 if n > 1 else 15, (1.0, 1.0, 1.0))
+        bonds = [(i, i + 1, 1 + (i % 3)) for i in range(n - 1)]
+        if n >= 3:
+            bonds.append((n - 1, 0, 4))
+        out.append((f"width{n}", Mol(atoms, bonds)))
+        if n in (9, 10, 99, 100):
+            atoms2 = [Atom("C", (i % 3) - 1, 2 if i % 4 == 0 else 0, 13 if i % 5 == 0 else 0, (float(i % 7), 0.0, 0.0)) for i in range(n)]
+            out.append((f"every{n}", Mol(atoms2, [(i, i + 1, 1) for i in range(n - 1)])))
+    return out
+
+
+def v2_deviations(name, M, tier):
+    """Single denotation-preserving deviations from the default V2000 spelling (all via property lines)."""
+    n = len(M.atoms)
+    any_chg = any(a.chg for a in M.atoms)
+    any_rad = any(a.rad for a in M.atoms)
+    codes_ok = all(abs(a.chg) <= 3 and a.rad in (0, 2) and not (a.chg and a.rad) for a in M.atoms)
+    if codes_ok and (any_chg or any_rad):
+        yield ("via=codes", {"chg_via": "codes", "rad_via": "codes"})
+    dts = [i for i, a in enumerate(M.atoms) if a.el == "H" and a.mass in (2, 3)]
+    for k in range(1, len(dts) + 1):
+        for sub in combinations(dts, k):
+            yield (f"DT{list(sub)}", {"dt": list(sub)})
+    if (any_chg or any_rad) and n <= 20:
+        for i in range(n):
+            for code in range(1, 8):
+                yield (f"stale[{i}]={code}", {"stale_codes": {i: code}})
+    nent = {"CHG": sum(1 for a in M.atoms if a.chg), "RAD": sum(1 for a in M.atoms if a.rad),
+            "ISO": sum(1 for a in M.atoms if a.mass)}
+    for key, k in nent.items():
+        if 2 <= k <= (17 if tier == "thorough" else 9):
+            for comp in MF.compositions(k):
+                dflt = [8] * (k // 8) + ([k % 8] if k % 8 else [])
+                if comp != dflt and (k <= 9 or len(comp) <= 3 or comp.count(1) >= len(comp) - 1):
+                    yield (f"grouping[{key}]={comp}", {"grouping": {key: comp}})
+        if 2 <= k <= 9:
+            yield (f"entryorder[{key}]=reversed", {"entry_order": {key: list(range(k - 1, -1, -1))}})
+            yield (f"entryorder[{key}]=rot", {"entry_order": {key: list(range(1, k)) + [0]}})
+    from itertools import permutations as perms
+    for p in perms(("CHG", "RAD", "ISO")):
+        if p != ("CHG", "RAD", "ISO"):
+            yield (f"lineorder={p}", {"line_order": p})
+    nlines = sum((k + 7) // 8 for k in nent.values())
+    for extra in MF.UNRELATED_V2_LINES:
+        for slot in range(nlines + 1):
+            yield (f"extra@{slot}:{extra[0][:6]}", {"extra_lines": [(slot, extra)]})
+    if n <= 20:
+        for i, a in enumerate(M.atoms):
+            for key, v in (("CHG", a.chg), ("RAD", a.rad)):
+                if not v:
+                    yield (f"zeroentry[{key},{i}]", {"zero_entries": [(key, i)]})
+    yield ("atomlists=1", {"atom_lists": 1})
+    yield ("atomlists=2", {"atom_lists": 2})
+    yield ("truncated-atom-lines", {"truncate_atoms": True})
+    yield ("short-bond-lines", {"short_bonds": True})
+    yield ("eol=CRLF", {"eol": "\r\n"})
+    yield ("no-final-newline", {"final_newline": False})
+    yield ("header", {"header": ("name", "  prog", "M  CHG  1   1   5")})
+
+
+def _v2_apply(sp, kw):
+    return MF.with_(sp, **kw)
+
+
+def c08_shard(job):
+    tier, name, M, depth, part, nparts = job
+    res = {"exec": 0, "vios": [], "states": 0, "transitions": 0, "nontrivial": 0, "by_kind": {}}
+    t3 = MF.v3000_text(M)
+    try:
+        g3 = read(t3)
+        s3 = tucan_of_text(t3)
+    except Exception as ex:
+        res["vios"].append(("C08|v3000-default|exc", {"kind": "molfile-vs-mol", "n": len(M.atoms), "molfile": t3, "mol": _mol_json(M),
+                                                     "summary": f"default V3000 rendering: {ex!r}"}))
+        return res
+    m3 = MF.compare_graph(g3, M)
+    if m3:
+        res["vios"].append(("C08|v3000-default", {"kind": "molfile-vs-mol", "n": len(M.atoms), "molfile": t3, "mol": _mol_json(M),
+                                                 "summary": f"default V3000 rendering: {m3}"}))
+    sp0 = MF.default_v2_spelling()
+    failing = set()
+
+    def run(label, sp):
+        if " + " in label and any(l in failing for l in label.split(" + ")):
+            return
+        try:
+            text = MF.v2000_text(M, sp)
+        except AssertionError:
+            return
+        res["states"] += 1
+        res["transitions"] += 1
+        res["exec"] += 1
+        k = _kind(label)
+        res["by_kind"][k] = res["by_kind"].get(k, 0) + 1
+        if label != "default":
+            res["nontrivial"] += 1
+        msg = None
+        try:
+            g = read(text)
+            msg = MF.compare_graph(g, M)
+            if not msg and (len(M.atoms) <= 20 or label == "default"):
+                s = tucan_of_text(text)
+                if s != s3:
+                    msg = f"TUCAN {s!r} != {s3!r} of the V3000 rendering"
+        except Exception as ex:
+            msg = f"reader raised {type(ex).__name__}: {str(ex)[:120]}"
+            k += "|exc"
+        if msg:
+            failing.add(label)
+            res["vios"].append((f"C08|{k}", {"kind": "molfile-vs-mol", "n": len(M.atoms), "molfile": text, "mol": _mol_json(M),
+                                            "label": label, "expect_tucan": s3, "summary": f"[{name}] {label}: {msg}"}))
+
+    if part == 0:
+        run("default", sp0)
+    devs = list(v2_deviations(name, M, tier))
+    for di, (label, kw) in enumerate(devs):
+        if di % nparts == part:
+            run(label, _v2_apply(sp0, kw))
+    if depth >= 2:
+        for pi, ((l1, k1), (l2, k2)) in enumerate(combinations(devs, 2)):
+            if pi % nparts != part:
+                continue
+            if set(k1) & set(k2) - {"extra_lines", "zero_entries", "stale_codes"}:
+                continue
+            if "stale_codes" in k1 and "stale_codes" in k2 and set(k1["stale_codes"]) & set(k2["stale_codes"]):
+                continue
+            if ("grouping" in k1 or "grouping" in k2 or "entry_order" in k1 or "entry_order" in k2) and \
+                    ("zero_entries" in k1 or "zero_entries" in k2 or "dt" in k1 or "dt" in k2 or "chg_via" in k1 or "chg_via" in k2):
+                continue  # entry counts change
+            if ("chg_via" in k1 and ("stale_codes" in k2 or "zero_entries" in k2)) or \
+                    ("chg_via" in k2 and ("stale_codes" in k1 or "zero_entries" in k1)):
+                continue  # with information in the codes there must be no CHG/RAD line at all
+            run(f"{l1} + {l2}", _v2_apply(_v2_apply(sp0, k1), k2))
+    return res
+
+
+def run_c08(tier):
+    rep = Report("C08", tier)
+    mols = c08_molecules(tier)
+    jobs = []
+    for mi, (name, M) in enumerate(mols):
+        n = len(M.atoms)
+        depth = 2 if (name in ("codes", "iso") or (name == "attr3" and (mi % (3 if tier == "thorough" else 11) == 0))) else 1
+        nparts = 16 if (n >= 99 or depth >= 2) else 1
+        for part in range(nparts):
+            jobs.append((tier, name, M, depth, part, nparts))
+    jobs.sort(key=lambda j: -(j[3] * 1000 + len(j[2].atoms)))
+    by_kind = {}
+    for job, res in pmap(c08_shard, jobs):
+        rep.add(states=res["states"], transitions=res["transitions"], traces_validated_against_impl=res["exec"],
+                distinct_nontrivial=res["nontrivial"])
+        for k, v in res["by_kind"].items():
+            by_kind[k] = by_kind.get(k, 0) + v
+        for key, case in res["vios"]:
+            rep.violation(key, case)
+    single = {k: v for k, v in by_kind.items() if "+" not in k}
+    rep.add(molecules=len(mols), single_deviation_kinds=single, pair_kind_count=len(by_kind) - len(single),
+            atom_counts=sorted({len(M.atoms) for _, M in mols}),
+            rule="states = (abstract molecule, V2000 spelling) with <=1 deviation from the all-property-lines default "
+                 "(<=2 for the codes/isotope molecules and a subset of the 3-atom family): codes vs lines, stale codes, "
+                 "every composition of the entry list into lines of <=8, entry/line order, unrelated lines at every "
+                 "slot, atom lists, truncated lines, D/T symbols, CRLF; oracle = abstract molecule and the V3000 "
+                 "rendering's TUCAN; non-trivial = non-default spellings")
+    name, M = mols[3]
+    rep.sample({"mol": _mol_json(M), "default_v2000": MF.v2000_text(M)})
+    rep.assumptions.append("my V2000/V3000 renderers follow the CTfile specification (fixed columns, supersession rule)")
+    return rep.finish()
+
+
+# ----------------------------------------------------------------------------------------------
+# C06 — only elements, isotopes, radicals and connectivity matter (pure differential oracle)
+# ----------------------------------------------------------------------------------------------
+def c06_molecules(tier):
+    out = []
+    cols = [("C", 0, 0), ("N", 0, 0), ("H", 0, 0), ("H", 2, 0)] + ([("O", 0, 2)] if tier == "thorough" else [])
+    for n in (1, 2, 3):
+        prs = list(combinations(range(n), 2))
+        for cs in product(cols, repeat=n):
+            for mask in range(1 << len(prs)):
+                atoms = [Atom(el, 0, rad, mass, (float(i), 0.0, 0.0)) for i, (el, mass, rad) in enumerate(cs)]
+                bonds = [(a, b, 1) for k, (a, b) in enumerate(prs) if mask >> k & 1]
+                out.append(Mol(atoms, bonds))
+    def mk(atoms, bonds):
+        return Mol([Atom(*a) if isinstance(a, tuple) else Atom(a) for a in atoms], bonds)
+    # carboxylate / nitro / formamide-like / charged 4..7 atom seeds
+    out.append(mk([("C",), ("O",), ("O", -1), ("H",)], [(0, 1, 2), (0, 2, 1), (0, 3, 1)]))
+    out.append(mk([("N", 1), ("O",), ("O", -1), ("C",)], [(0, 1, 2), (0, 2, 1), (0, 3, 1)]))
+    out.append(mk([("C",), ("O",), ("N",), ("H",), ("H", 0, 0, 2)], [(0, 1, 2), (0, 2, 1), (2, 3, 1), (2, 4, 1)]))
+    out.append(mk(["C"] * 6, [(i, (i + 1) % 6, 1 + i % 2) for i in range(6)]))
+    out.append(mk(["C"] * 6 + [("C", 0, 2, 13)], [(i, (i + 1) % 6, 4) for i in range(6)] + [(0, 6, 1)]))
+    out.append(mk([("C",), ("C",), ("C",), ("O", -1), ("Na", 1)], [(0, 1, 2), (1, 2, 1), (2, 3, 1)]))
+    out.append(mk([("C", 0, 2), ("C", 0, 2), ("H", 0, 0, 3), ("Cl",)], [(0, 1, 1), (0, 2, 1), (1, 3, 1)]))
+    return out
+
+
+def c06_shard(job):
+    tier, mi, M, depth = job
+    res = {"exec": 0, "vios": [], "states": 0, "transitions": 0, "nontrivial": 0, "by_kind": {}}
+    sp0 = MF.default_spelling()
+    t0 = MF.v3000_text(M, sp0)
+    try:
+        base = tucan_of_text(t0)
+    except Exception as ex:
+        res["vios"].append(("C06|default|exc", {"kind": "molfile-pair", "n": len(M.atoms), "molfile_a": t0, "molfile_b": t0,
+                                               "summary": f"default rendering raised {ex!r}"}))
+        return res
+    failing = set()
+
+    def run(label, text):
+        if " + " in label and any(l in failing for l in label.split(" + ")):
+            return
+        res["states"] += 1
+        res["transitions"] += 1
+        res["exec"] += 1
+        k = _kind(label)
+        res["by_kind"][k] = res["by_kind"].get(k, 0) + 1
+        if M.bonds and text != t0:
+            res["nontrivial"] += 1
+        try:
+            s = tucan_of_text(text)
+            msg = None if s == base else f"TUCAN {s!r} != {base!r} of the default rendering"
+        except Exception as ex:
+            msg = f"raised {type(ex).__name__}: {str(ex)[:100]}"
+        if msg:
+            failing.add(label)
+            res["vios"].append((f"C06|{k}", {"kind": "molfile-pair", "n": len(M.atoms), "molfile_a": t0, "molfile_b": text,
+                                            "label": label, "summary": f"{label}: {msg}"}))
+
+    run("v2000-default", MF.v2000_text(M))
+    ddevs = list(MF.data_deviations(M, tier))
+    for label, M2 in ddevs:
+        run("v3:" + label, MF.v3000_text(M2, sp0))
+        if all(abs(c) < 9999.9 for a in M2.atoms for c in a.xyz):
+            run("v2:" + label, MF.v2000_text(M2))
+    sdevs = [d for d in MF.v3_structure_deviations(M, tier)]
+    for label, kw in sdevs:
+        run("v3:" + label, MF.v3000_text(M, MF.with_(sp0, **kw)))
+    v2devs = list(v2_deviations("c06", M, tier))
+    for label, kw in v2devs:
+        try:
+            run("v2:" + label, MF.v2000_text(M, MF.with_(MF.default_v2_spelling(), **kw)))
+        except AssertionError:
+            pass
+    if depth >= 2:
+        for (l1, m1), (l2, m2) in combinations(ddevs, 2):
+            f1, f2 = l1.split("=")[0], l2.split("=")[0]
+            if f1 == f2:
+                continue
+            M3 = _merge(M, m1, m2)
+            run(f"v3:{l1} + v3:{l2}", MF.v3000_text(M3, sp0))
+        for l1, m1 in ddevs:
+            for l2, kw in sdevs:
+                try:
+                    run(f"v3:{l1} + v3:{l2}", MF.v3000_text(m1, MF.with_(sp0, **kw)))
+                except AssertionError:
+                    pass
+    return res
+
+
+def _merge(M, m1, m2):
+    """Apply the (single-field) differences of m1 and m2 w.r.t. M to a copy of M."""
+    M3 = M.copy()
+    for src in (m1, m2):
+        for i, (a, b) in enumerate(zip(M.atoms, src.atoms)):
+            if a.xyz != b.xyz:
+                M3.atoms[i].xyz = b.xyz
+            if a.chg != b.chg:
+                M3.atoms[i].chg = b.chg
+        for j, (x, y) in enumerate(zip(M.bonds, src.bonds)):
+            if x != y:
+                M3.bonds[j] = y
+    return M3
+
+
+def c06_redrawings(tier):
+    """Resonance/tautomer-style redrawings: all bond-type vectors in {1,2,4}^m x all charge vectors in
+    {-1,0,+1}^n with total charge 0, on a few skeletons (m, n <= 5)."""
+    skels = [
+        (["C", "O", "O"], [(0, 1), (0, 2)]),
+        (["N", "O", "O", "C"], [(0, 1), (0, 2), (0, 3)]),
+        (["C", "C", "C", "O"], [(0, 1), (1, 2), (2, 3)]),
+        (["C", "N", "C", "N", "C"], [(0, 1), (1, 2), (2, 3), (3, 4), (4, 0)]),
+    ]
+    if tier == "quick":
+        skels = skels[:3]
+    for els, bonds in skels:
+        n, m = len(els), len(bonds)
+        items = []
+        for types in product((1, 2, 4), repeat=m):
+            for chgs in product((-1, 0, 1), repeat=n):
+                if sum(chgs) != 0:
+                    continue
+                items.append(Mol([Atom(e, c, 0, 0, (float(i), 0.0, 0.0)) for i, (e, c) in enumerate(zip(els, chgs))],
+                                 [(a, b, t) for (a, b), t in zip(bonds, types)]))
+        yield items
+
+
+def c06_redraw_shard(items):
+    res = {"exec": 0, "vios": [], "states": 0, "strings": set()}
+    base = None
+    t0 = None
+    for M in items:
+        for fmt, text in (("v3", MF.v3000_text(M)), ("v2", MF.v2000_text(M))):
+            res["states"] += 1
+            res["exec"] += 1
+            try:
+                s = tucan_of_text(text)
+            except Exception as ex:
+                s = f"<{type(ex).__name__}>"
+            if base is None:
+                base, t0 = s, text
+            res["strings"].add(s)
+            if s != base:
+                res["vios"].append(("C06|redrawing", {"kind": "molfile-pair", "n": len(M.atoms), "molfile_a": t0, "molfile_b": text,
+                                                      "summary": f"redrawing (bond orders/charges only) changes TUCAN: {s!r} vs {base!r}"}))
+    res["strings"] = sorted(res["strings"])
+    return res
+
+
+def run_c06(tier):
+    rep = Report("C06", tier)
+    mols = c06_molecules(tier)
+    jobs = []
+    for mi, M in enumerate(mols):
+        n = len(M.atoms)
+        if tier == "quick":
+            depth = 2 if (n >= 4 and mi % 2 == 0) or (n == 3 and len(M.bonds) == 2 and mi % 40 == 0) else 1
+        else:
+            depth = 2 if n >= 4 or (n == 3 and mi % 8 == 0) or n == 2 else 1
+        jobs.append((tier, mi, M, depth))
+    jobs.sort(key=lambda j: -(j[3] * 100 + len(j[2].atoms)))
+    by_kind = {}
+    for job, res in pmap(c06_shard, jobs):
+        rep.add(states=res["states"], transitions=res["transitions"], traces_validated_against_impl=res["exec"],
+                distinct_nontrivial=res["nontrivial"])
+        for k, v in res["by_kind"].items():
+            by_kind[k] = by_kind.get(k, 0) + v
+        for key, case in res["vios"]:
+            rep.violation(key, case)
+    redraw = 0
+    for items, res in pmap(c06_redraw_shard, list(c06_redrawings(tier))):
+        redraw += res["states"]
+        rep.add(states=res["states"], transitions=res["states"], traces_validated_against_impl=res["exec"],
+                distinct_nontrivial=res["states"])
+        for key, case in res["vios"]:
+            rep.violation(key, case)
+    single = {k: v for k, v in by_kind.items() if "+" not in k}
+    rep.add(molecules=len(mols), redrawings=redraw, single_deviation_kinds=len(single), single_deviation_executions=sum(single.values()),
+            pair_executions=sum(v for k, v in by_kind.items() if "+" in k),
+            rule="states = renderings (V3000 and V2000) of each molecule with <=1 deviation in non-identity data or "
+                 "spelling (<=2 on a subset): coordinates, every bond type 1..10, charges, index maps, extra "
+                 "keywords/blocks, headers, CRLF; plus all {1,2,4}^m x {-1,0,1}^n (total charge 0) redrawings of 3-4 "
+                 "skeletons; oracle = string equality with the default rendering; non-trivial = molecule has a bond "
+                 "and the text differs")
+    M = mols[-6]
+    rep.sample({"default": MF.v3000_text(M)})
+    lab, M2 = list(MF.data_deviations(M, tier))[40]
+    rep.sample({"deviation": lab, "text": MF.v3000_text(M2)})
+    rep.assumptions.append("renderers follow the CTfile specification; differential oracle only")
+    return rep.finish()
+
+
+def replay_pair(prop, rec):
+    try:
+        a = tucan_of_text(rec["molfile_a"])
+        b = tucan_of_text(rec["molfile_b"])
+    except Exception as ex:
+        return True, f"raised {type(ex).__name__}: {ex}"
+    return a != b, f"tucan(A)={a!r}\ntucan(B)={b!r}"
